@@ -14,6 +14,11 @@ THEOREMS = ['Ndt.hessian_fdel_symmetric', 'Ndt.hessFlat_symmetric', 'Ndt.hessFor
             'Ndt.hessComplex_quadratic', 'Ndt.phi_bcMPoly', 'Ndt.hessMulticomplex_quadratic', 'Ndt.hessian_complex_not_high_order', 'Ndt.hessdiag_exact_complex']
 METHODS = ['central', 'central2', 'forward', 'backward', 'complex', 'multicomplex']
 
+# worst |Hessdiag - exact| / scale on the unchanged tree, MinStepGenerator() or MinStepGenerator(step_ratio=2), smooth family, 2400 cases each
+HESSDIAG_WORST = {('central', 2): 2.1e-7, ('central', 4): 8.6e-11, ('central', 6): 4.2e-12,
+                  ('forward', 2): 1.1e-6, ('forward', 4): 3.6e-9, ('forward', 6): 3.1e-10,
+                  ('backward', 2): 9.6e-7, ('backward', 4): 4.5e-9, ('backward', 6): 3.9e-10}
+
 
 def run(ctx):
     import numdifftools as nd
@@ -158,6 +163,45 @@ def run(ctx):
             tol = 1000 * (np.abs(hi.error_estimate) + np.diag(est)) + {'forward': 1e-3, 'backward': 1e-3}.get(meth, 1e-5) * scale
             if np.any(np.abs(hd - dexact) > tol) or np.any(np.abs(hd - np.real(np.diag(H))) > 2 * tol):
                 ctx.violation('Hessdiag differs from the Hessian diagonal', order=order, hessdiag=hd.tolist(), diagonal=dexact.tolist(), **rep)
+    # ---- Hessdiag for every supported order with a user step generator that serves all of them (the loop `for order in (2, 4, 6)` a
+    # user writes with one MinStepGenerator): calibrated accuracy envelope per (method, order) = 100 x the worst error / scale seen on
+    # the unchanged tree over 2400 random cases of this family (tools: /verif/DESIGN.md section 0.4), fresh generator or shared one alike
+    from numdifftools.step_generators import MinStepGenerator
+    worst_hd = {}
+    for it in range(ctx.budget(60, 600)):
+        n = rng.randint(1, 6)
+        meth = rng.choice(['central', 'forward', 'backward'])
+        x = np.array([rng.uniform(-1.5, 1.5) for _ in range(n)])
+        Q = np.array([[rng.randint(-8, 8) / 4 for _ in range(n)] for _ in range(n)])
+        Q = (Q + Q.T) / 2
+        g = np.array([rng.randint(-8, 8) / 4 for _ in range(n)])
+        a, b = np.array([rng.uniform(-1, 1) for _ in range(n)]), np.array([rng.uniform(-1, 1) for _ in range(n)])
+        f = lambda t: np.exp(np.dot(a, t)) + np.sin(np.dot(b, t)) + 0.5 * np.dot(t, Q @ t) + np.dot(a, t) * np.dot(b, t)
+        exact = np.exp(a @ x) * np.outer(a, a) - np.sin(b @ x) * np.outer(b, b) + Q + np.outer(a, b) + np.outer(b, a)
+        scale = 1 + np.abs(exact).max() + np.abs(g).max()
+        gopt = rng.choice([{}, {'step_ratio': 2.0}])
+        shared = MinStepGenerator(**gopt)
+        orders = [2, 4, 6]
+        rng.shuffle(orders)
+        ctx.tried(('hessdiag-orders', n, meth, tuple(x[:2]), tuple(orders)))
+        for order in orders:
+            try:
+                with warnings.catch_warnings():
+                    warnings.simplefilter('ignore')
+                    hd = nd.Hessdiag(f, method=meth, order=order, step=shared)(x)
+            except Exception as ex:
+                ctx.violation('Hessdiag with a user step generator raised %r' % ex, order=order, method=meth, n=n, x=x.tolist())
+                break
+            e = float(np.max(np.abs(hd - np.diag(exact)))) / scale
+            worst_hd[(meth, order)] = max(worst_hd.get((meth, order), 0.0), e / HESSDIAG_WORST[(meth, order)])
+            if e > 100 * HESSDIAG_WORST[(meth, order)]:
+                ctx.violation('Hessdiag (one MinStepGenerator serving the orders %s in turn) is outside the accuracy envelope of its order' % orders,
+                              order=order, method=meth, n=n, x=x.tolist(), generator_options=gopt, error_over_scale=e,
+                              envelope=100 * HESSDIAG_WORST[(meth, order)], a=a.tolist(), b=b.tolist(), Q=Q.tolist(), hessdiag=hd.tolist(),
+                              exact=np.diag(exact).tolist())
+                break
+    if worst_hd:
+        ctx.notes.append('Hessdiag with a shared MinStepGenerator: worst error / calibrated worst = %.3g (envelope 100)' % max(worst_hd.values()))
     ctx.notes.append('few-step complex / bicomplex Hessians: worst error / scale = %.3g (bound 1e-9)' % worst_few)
     ctx.assumptions.append('the complex (Ridout eq. 10) and bicomplex Hessian formulas are covered by the search only; rounding is not modelled')
 
